@@ -97,7 +97,11 @@ def run(tier):
     rnd = random.Random(vp.seed() + 5)
     limit = 25000 if tier == "quick" else 200000
     if len(edges) > limit:
-        edges = rnd.sample(edges, limit)
+        # transitions that involve the same-length text variant are few and all kept
+        keep = [e for e in edges if '"v2": true' in json.dumps(e.get("act")) or '"v2": true' in json.dumps(e.get("pre"))]
+        rest = [e for e in edges if not ('"v2": true' in json.dumps(e.get("act")) or '"v2": true' in json.dumps(e.get("pre")))]
+        keep = keep if len(keep) <= 4000 else rnd.sample(keep, 4000)
+        edges = keep + rnd.sample(rest, limit - len(keep))
         C.cov["exhaustive"] = False
         C.notes.append("replayed a VERIF_SEED sample of %d of %d explored transitions" % (limit, len(r.tags["EDGE"])))
     else:
